@@ -218,6 +218,14 @@ class BoundTemplate:
             return True
 
         uptodate = self.uptodate()
+        if isinstance(uptodate, Awaitable):
+            # This template was loaded asynchronously and its `uptodate` callable
+            # can only be awaited. We can't wait for it here, so report the
+            # template as stale and let the caller reload it.
+            close = getattr(uptodate, "close", None)
+            if close:
+                close()
+            return False
         if not isinstance(uptodate, bool):
             raise LiquidError(
                 f"expected a boolean from uptodate, found {type(uptodate).__name__}",
